@@ -138,15 +138,26 @@ def run(chk):
             if leaked:
                 chk.violation("handles:leak:%s" % entry, "%s on a %s leaves a file open after %s (fault: %s)"
                               % (entry, kind, "returning" if outcome == "ok" else "raising " + outcome, fault), dict(rep, leaked=leaked))
-            if stream is not None and (stream.close_calls or stream.closed):
-                chk.violation("handles:caller-stream-closed:%s" % entry, "%s closed a stream supplied by the caller (fault: %s)" % (entry, fault), rep)
+            if stream is not None and (getattr(stream, "close_calls", 0) or stream.closed):
+                chk.violation("handles:caller-stream-closed:%s" % entry, "%s closed a stream supplied by the caller (a %s; fault: %s)"
+                              % (entry, kind, fault), rep)
+            if stream is not None and not isinstance(stream, Stream):
+                stream.close()          # a real file the harness opened for this call
 
         def targets(text, suffix):
             p = os.path.join(tmp, "in" + suffix)
             with open(p, "w", encoding="utf-8") as f:
                 f.write(text)
             s = Stream(text)
-            return [("str", p, None), ("Path", pathlib.Path(p), None), ("stream", s, s)] + [(k, t, None) for k, t in other_paths(p)]
+            # streams the caller opened itself on a real file, in text mode with various codecs and in binary mode
+            own = []
+            for enc in ("utf-8", "latin-1", "ascii", "cp1252", "utf-8-sig"):
+                fh = open(p, "r", encoding=enc, errors="replace")
+                own.append(("file-stream-" + enc, fh, fh))
+            fb = open(p, "rb")
+            own.append(("file-stream-binary", fb, fb))
+            return [("str", p, None), ("Path", pathlib.Path(p), None), ("stream", s, s)] + own + \
+                [(k, t, None) for k, t in other_paths(p)]
 
         class FsPath:
             """an os.PathLike that is neither str nor a pathlib path"""
